@@ -182,13 +182,20 @@ unsigned short le_word(const byte *d)
 
 unsigned long le_quad(const byte *d)
 {
-  return static_cast<unsigned long>(d[0] | (d[1] << 8u) |
-				    (d[2] << 16u) | (d[3] << 24u));
+  return static_cast<unsigned long>(d[0]) |
+    (static_cast<unsigned long>(d[1]) << 8u) |
+    (static_cast<unsigned long>(d[2]) << 16u) |
+    (static_cast<unsigned long>(d[3]) << 24u);
 }
 
 std::optional<Header> read_and_verify_header(DFS::FileAccess *f, std::string& error)
 {
   std::vector<byte> header_data = f->read(0, 19);
+  if (header_data.size() < 19)
+    {
+      error = "file is too short to contain an HxC MFM file header";
+      return std::nullopt;
+    }
   const byte* d = header_data.data();
   /* 0x00 - 0x06 is a magic string, including a terminating NUL. */
   const char expected_magic[7] = "HXCMFM";
@@ -387,6 +394,13 @@ std::map<TrackDataKey, TrackData> HxcMfmFile::get_track_metadata()
        pos += 11)
     {
       std::vector<byte> raw_metadata = file_->read(pos, 11);
+      if (raw_metadata.size() < 11)
+	{
+	  std::ostringstream ss;
+	  ss << "the track list ends at file position " << pos
+	     << " without an entry for the last track";
+	  throw InvalidHxcMfmFile(ss.str());
+	}
       const byte* raw = raw_metadata.data();
       const TrackDataKey key(le_word(raw), raw[2]);
       const TrackData td(le_quad(raw+3), le_quad(raw+7));
@@ -420,6 +434,17 @@ HxcMfmFile::read_all_sectors(unsigned int side,
       if (key.side_number != side)
 	continue;
 
+      // A track of a 300 RPM double-density disc holds about 12.5KB
+      // of MFM data; don't try to allocate whatever the file claims.
+      constexpr unsigned long max_track_size = 1024uL * 1024uL;
+      if (td.mfmtracksize > max_track_size)
+	{
+	  std::ostringstream ss;
+	  ss << "image file contains metadata for track " << key.track_number
+	     << " stating that its data is " << td.mfmtracksize
+	     << " bytes long, which is not credible";
+	  throw InvalidHxcMfmFile(ss.str());
+	}
       std::vector<byte> track = file_->read(td.mfmtrackoffset, td.mfmtracksize);
       if (track.size() != td.mfmtracksize)
 	{
